@@ -5,6 +5,7 @@ import (
 	"fmt"
 	"reflect"
 	"sync"
+	"sync/atomic"
 
 	"github.com/cloudwego/thriftgo/parser"
 	"github.com/cloudwego/thriftgo/semantic"
@@ -28,15 +29,16 @@ import (
 // definition they name (a typedef is a Go type alias in generated code).
 
 type reflCase struct {
-	ID      json.RawMessage   `json:"id"`
-	Prefix  string            `json:"prefix"`
-	Main    string            `json:"main"`
-	Paths   []string          `json:"paths"` // file index -> path relative to the prefix
-	Files   map[string]string `json:"files"` // relative path -> text
-	Orders  [][]int           `json:"orders"`
-	Types   [][]reflType      `json:"types"` // per file, in go_types order
-	Queries []c15refl.Q       `json:"queries"`
-	Rereg   bool              `json:"rereg"` // register every file a second time (same content) at the end
+	ID         json.RawMessage   `json:"id"`
+	Prefix     string            `json:"prefix"`
+	Main       string            `json:"main"`
+	Paths      []string          `json:"paths"` // file index -> path relative to the prefix
+	Files      map[string]string `json:"files"` // relative path -> text
+	Orders     [][]int           `json:"orders"`
+	Types      [][]reflType      `json:"types"` // per file, in go_types order
+	Queries    []c15refl.Q       `json:"queries"`
+	QueriesAst []c15refl.Q       `json:"queries_ast"` // for the private registry of RegisterAST
+	Rereg      bool              `json:"rereg"`       // register every file a second time (same content) at the end
 }
 
 type reflType struct {
@@ -107,8 +109,12 @@ func reflFrontEnd(prefix string, c *reflCase) (*parser.Thrift, map[string]*parse
 	return ast, byName, "ok", nil
 }
 
-func fakeType(tag string) reflect.Type {
-	return reflect.StructOf([]reflect.StructField{{Name: "X" + tag, Type: reflect.TypeOf(0)}})
+var fakeSeq int64
+
+// fakeType returns a Go type no other call returns (reflect.StructOf interns by field list).
+func fakeType() reflect.Type {
+	n := atomic.AddInt64(&fakeSeq, 1)
+	return reflect.StructOf([]reflect.StructField{{Name: fmt.Sprintf("X%d", n), Type: reflect.TypeOf(0)}})
 }
 
 func copyQs(qs []c15refl.Q) []c15refl.Q {
@@ -148,9 +154,9 @@ func runReflect(c *reflCase) *reflObs {
 			for i, rel := range c.Paths {
 				w.Paths = append(w.Paths, prefix+rel)
 				fi := c15refl.FileInfo{Path: prefix + rel}
-				for j, ty := range c.Types[i] {
+				for _, ty := range c.Types[i] {
 					fi.Types = append(fi.Types, c15refl.TypeInfo{Kind: ty.Kind, Name: ty.Name,
-						Ptr: reflect.New(fakeType(fmt.Sprintf("%d_%d_%d", k, i, j))).Interface()})
+						Ptr: reflect.New(fakeType()).Interface()})
 				}
 				w.Files = append(w.Files, fi)
 			}
@@ -214,12 +220,7 @@ func runReflect(c *reflCase) *reflObs {
 				for _, rel := range c.Paths {
 					w.Paths = append(w.Paths, prefix+rel)
 				}
-				var qs []c15refl.Q
-				for _, q := range c.Queries { // no Go types in this registry
-					if q.Q != "bygo" && q.Q != "togo" && q.Q != "own" {
-						qs = append(qs, q)
-					}
-				}
+				qs := copyQs(c.QueriesAst) // no Go types in this registry
 				order := make([]int, 0, len(c.Paths))
 				for i := range c.Paths {
 					order = append(order, i+1)
